@@ -42,6 +42,9 @@ pub struct TrainSpec {
     pub units: Vec<UnitSpec>,
     pub pdct: u8,
     pub init_time: f64,
+    /// default hybrid locomotives appended to the generated units
+    #[serde(default)]
+    pub hybrids: usize,
 }
 
 impl CarSpec {
@@ -90,7 +93,7 @@ impl TrainSpec {
         if self.dummy {
             0.0
         } else {
-            LOCO_MASS * self.units.len() as f64
+            LOCO_MASS * (self.units.len() + self.hybrids) as f64
         }
     }
     pub fn mass_static(&self) -> f64 {
@@ -152,8 +155,18 @@ impl TrainSpec {
             let mut l: Locomotive = serde_json::from_value(v)?;
             l.set_save_interval(save_interval);
             Ok(Consist::new(vec![l], save_interval, PowerDistributionControlType::RESGreedy(RESGreedy)))
-        } else {
+        } else if self.hybrids == 0 {
             build_consist(&self.units, self.pdct, save_interval)
+        } else {
+            let mut c = build_consist(&self.units, self.pdct, save_interval)?;
+            let mut v = c.loco_vec.clone();
+            for _ in 0..self.hybrids {
+                let mut l = Locomotive::default_hybrid_electric_loco();
+                l.set_save_interval(save_interval);
+                v.push(l);
+            }
+            c = Consist::new(v, save_interval, c.pdct.clone());
+            Ok(c)
         }
     }
 
@@ -284,6 +297,7 @@ pub fn gen_train(g: &mut Gen, o: &TrainOpts) -> TrainSpec {
         units: vec![],
         pdct: 0,
         init_time: 0.0,
+        hybrids: 0,
     };
     if o.allow_overrides {
         if g.bool(0.15) {
